@@ -21,13 +21,25 @@ def uuid_of(k):
 
 
 def rule_dict(r, idx):
-    det = {uncps(n): {f"F{i + 1}": "v"} for i, n in enumerate(r["names"])}
+    body = r.get("body", "map")
+
+    def one(i):
+        if body == "maps":  # nested detections, with values the value validators have something to say about
+            return [{f"F{i + 1}": "v", f"G{i + 1}": "4711"}, {f"H{i + 1}|contains": "x**y"}]
+        if body == "keywords":
+            return [f"kw{i + 1}", "other*"]
+        return {f"F{i + 1}": "v"}
+
+    det = {uncps(n): one(i) for i, n in enumerate(r["names"])}
     conds = [uncps(c) for c in r["conds"]]
     det["condition"] = conds[0] if len(conds) == 1 else conds
     # (log source and a numeric EventID vary with the rule's directory / file number: material for the validators that
     #  look at log sources and event identifiers - none of the five modelled ones does)
     first = next(iter(det))
-    det[first] = dict(det[first], EventID=int(r["fname"]))
+    if body == "map":
+        det[first] = dict(det[first], EventID=int(r["fname"]))
+    elif body == "maps":
+        det[first] = [dict(det[first][0], EventID=int(r["fname"]))] + det[first][1:]
     det["condition"] = conds[0] if len(conds) == 1 else conds
     ls = {"product": "windows", "service": "sysmon"} if r["dir"] == 1 else {"product": "windows", "service": "application"}
     d = {"title": f"T{r['title']}", "description": f"R{idx}", "logsource": ls, "detection": det}
@@ -55,11 +67,24 @@ def run_once(case, perm, vorder):
     excl = {}
     for v, uid in case["excl"]:
         excl.setdefault(UUID(uuid_of(uid)) if uid else None, set()).add(VALIDATORS[v])  # uid 0: the rules without id
+    # every other case defines the validator through its configuration document instead; an id that occurs in several
+    # entries of the exclusion table is written there once per entry, each time in another of its spellings
+    conf = None
+    if (case["id"] * 2654435761 >> 11) % 2 == 1:  # (scrambled: neighbouring case numbers differ in one dimension only)
+        seen = {}
+        ex = {}
+        for v, uid in case["excl"]:
+            k = seen.get(uid, 0)
+            seen[uid] = k + 1
+            text = uuid_of(uid)
+            key = None if not uid else [text, text.upper(), "{" + text + "}", text.replace("-", "")][k % 4]
+            ex.setdefault(key, []).append(v)
+        conf = {"validators": names, "exclusions": {k: (v[0] if len(v) == 1 else v) for k, v in ex.items()}}
     snapshot = lambda: [json.dumps(r.to_dict(), sort_keys=True, default=str) for r in rules]
     before = snapshot()
     out = {"perm": list(perm), "ok": False, "issues": [], "unchanged": False, "allsig": []}
     try:
-        sv = SigmaValidator([VALIDATORS[n] for n in names], excl)
+        sv = SigmaValidator.from_dict(conf, VALIDATORS) if conf is not None else SigmaValidator([VALIDATORS[n] for n in names], excl)
         issues = sv.validate_rules(iter(rules))
         # every built-in validator over the same objects: they must not change the rules either, and what they report
         # must not depend on the order (their issues are compared between the runs, not with an expected set)
